@@ -66,6 +66,7 @@ type Sim struct {
 	scriptEvidence [][]byte          // evidence a script wants in the current block
 	progOf         map[string]string // deployed contract address -> program name
 	ties           bool              // tie-prone flavour: stake amounts from a small set
+	bigGas bool // mainnet-scale gas price: some gas limits make gas x price exceed 64 bits
 	scriptMiss     [][]byte          // validators a script reports as not having signed the previous block
 }
 
@@ -108,6 +109,12 @@ func newSimWith(seed int64, scratch string, profile string, nvals, nusers int, t
 	if seed%5 == 2 && nvals == 0 {
 		// flavour: a reward per power beyond 64 bits (the parameter is a 256-bit number; rewards are too)
 		g.Params.RewardPerPower = new(big.Int).Add(new(big.Int).Lsh(big.NewInt(1), uint(62+rng.Intn(5))), big.NewInt(int64(rng.Intn(1000)))).String()
+	}
+	if seed%7 == 3 && nvals == 0 {
+		// flavour: the gas price of the public network (250 Gfons) and its minimum gas; with gas limits of
+		// 10^8 and more the fee gas x price no longer fits 64 bits (it is a 256-bit amount everywhere)
+		g.Params.GasPrice, g.Params.MinTrxGas = "250000000000", 4000
+		s.bigGas = true
 	}
 	if g.Params.MaxValidatorCnt < int64(nv) { // the genesis validators satisfy the validator limits
 		g.Params.MaxValidatorCnt = int64(nv)
@@ -229,6 +236,9 @@ func (s *Sim) balOf(a []byte) *big.Int {
 
 func (s *Sim) baseTx(ty int32, from Key, to []byte) *TxSpec {
 	gas := s.params.MinTrxGas + uint64(s.rng.Intn(50))
+	if s.bigGas && s.rng.Intn(12) == 0 {
+		gas = uint64(80000000 + s.rng.Intn(400000000))
+	}
 	return &TxSpec{Type: ty, From: from.Addr, To: to, Amount: "0", GasPrice: s.params.GasPrice, Gas: gas,
 		Nonce: s.nonces[string(from.Addr)], Time: int64(1_700_000_000_000_000_000) + s.height*1000 + int64(s.rng.Intn(1000)),
 		SignerLabel: from.Name}
